@@ -96,6 +96,7 @@ class C16(Prop):
             yield {"k": "align", "what": "clifford2" if t % 4 else "pair", "n": 2 if t % 8 else 1, "seed": base + 5000 + t, "pkg": "py"}
         yield {"k": "birthday", "n": 3, "M": 6000, "seed": base + 9}
         yield {"k": "bigbirthday", "n": 5, "M": 200000, "seed": base + 10, "pkg": "py"}
+        yield {"k": "rowmarginal", "n": 500, "maps": 16 if thorough else 10, "seed": base + 11, "pkg": "py"}
         # larger registers: the image of X_1 / Z_1 under a uniform Clifford is a uniform non-identity string, so every
         # letter appears on every qubit in a quarter of the samples (up to 4^-N); per-qubit letter tallies
         for n in (7, 33, 40, 66):
@@ -201,6 +202,17 @@ class C16(Prop):
                         signs[1 if w[-1] == 2 else 0] += 1
                 return [{"op": "marginal", "name": scn["name"], "n": n, "M": M, "cnt": cnt, "exact": bool(scn.get("exact"))},
                         {"op": "fair", "name": "random_clifford_map signs n=%d" % n, "c0": signs[0], "c1": signs[1]}]
+            if k == "rowmarginal":
+                be.seed(scn["seed"])
+                n = scn["n"]
+                cnt = []
+                for t in range(scn["maps"]):
+                    gs = be.utils.random_clifford(n)
+                    for q in (0, n // 2, n - 1):
+                        x, z = gs[:, 2 * q], gs[:, 2 * q + 1]
+                        cnt.append([int(((x == 0) & (z == 0)).sum()), int(((x == 1) & (z == 0)).sum()),
+                                    int(((x == 1) & (z == 1)).sum()), int(((x == 0) & (z == 1)).sum())])
+                return [{"op": "rowmarginal", "n": n, "cnt": cnt}]
             if k == "bigbirthday":
                 be.seed(scn["seed"])
                 seen = set()
